@@ -137,6 +137,8 @@ class Monitor(object):
             finding = 'KF-C10-1'       # a re-used address: stale member tables + a member set replayed from a log prefix
         if finding is None and 'kf_c10_2' in self.trigger and prop in ('C01', 'C02', 'C03', 'C04', 'C10'):
             finding = 'KF-C10-2'       # a joiner whose start list lacks a member of the committed configuration
+        if finding is None and 'kf_c10_3' in self.trigger and prop in ('C01', 'C02', 'C03', 'C04', 'C10'):
+            finding = 'KF-C10-3'       # a joiner that is not yet a member took a snapshot that lists itself
         if finding is None and any(k.startswith('kf_c08_1') for k in self.trigger) and prop in ('C01', 'C02', 'C03', 'C04'):
             finding = 'KF-C08-1'       # acknowledged entries were lost by a kill inside the journal head drop
         if finding is not None:
@@ -270,8 +272,12 @@ class Monitor(object):
             if cm > ap and nxt is not None:
                 kind, a, b = sim.cid_of_command(nxt[0])
                 if kind == 0 and sim.cmds.get(a, {}).get('raises'):
+                    # a node whose journal lost acknowledged entries in a kill inside the head drop (KF-C08-1) comes back
+                    # with a commit index beyond the end of its log: what it appends next is "committed" before the apply
+                    # phase of the following tick has seen it - a symptom of that finding, not a wedged node
                     self.rec('C12', 'node %d does not get past position %d (commit index %d): the command there raises %s'
-                             % (nid, ap + 1, cm, SIM.RAISED[a % len(SIM.RAISED)].__name__))
+                             % (nid, ap + 1, cm, SIM.RAISED[a % len(SIM.RAISED)].__name__),
+                             finding='KF-C08-1' if ('kf_c08_1:%d' % nid) in self.trigger else None)
         log = self.log_of(o)
         if any(log[i + 1][1] != log[i][1] + 1 for i in range(len(log) - 1)):
             # every check below addresses entries by position: a log that is not a run of consecutive positions (a damaged
@@ -284,6 +290,7 @@ class Monitor(object):
             return
         self.check_c06_c07(rec, sim, ev, nid, o)
         self.check_version(rec, sim, nid, o)
+        self.note_snapshot_taken(rec, sim, nid, o)
         self.check_c10(rec, sim, nid, o)
         self.check_c18_c20(rec, sim, ev, nid, o)
         commit, applied = g(o, 'raftCommitIndex'), g(o, 'raftLastApplied')
@@ -434,6 +441,33 @@ class Monitor(object):
     # ---- C10: membership ---------------------------------------------------------------------------
     def members_of(self, o):
         return set(SIM.nid_of(x) for x in g(o, 'otherNodes'))
+
+    def note_snapshot_taken(self, rec, sim, nid, o):
+        """known finding KF-C10-3: a voter that is not a member by the membership commands up to its applied position (a
+        joiner whose own 'add' is not applied yet) takes a snapshot of that position; the member set written into it
+        contains the node itself.  From the step a node starts such a snapshot the cluster-wide safety records of the
+        trace are its symptoms."""
+        if not rec.cfg.get('dyn') or nid >= RO_BASE:
+            return
+        ser = g(o, 'serializer')
+        cur = getattr(ser, '_Serializer__currentID', None)
+        key = (nid, self.incarnation.get(nid, 0))
+        self.snap_ids = getattr(self, 'snap_ids', {})
+        if cur is None or self.snap_ids.get(key) == cur:
+            return
+        self.snap_ids[key] = cur
+        pos = cur + 1                      # the snapshot's position (the id is the entry before it)
+        members = set(rec.cfg['voters'])
+        for idx in sorted(self.committed):
+            if idx <= pos:
+                kind, a, b = sim.cid_of_command(self.committed[idx][0])
+                if kind == 2:
+                    if a == 1:
+                        members.add(b)
+                    else:
+                        members.discard(b)
+        if nid not in members and all(i in self.committed for i in range(2, pos + 1)):
+            self.trigger.setdefault('kf_c10_3', self.step)
 
     def check_version(self, rec, sim, nid, o):
         """C09 / C17: the enabled code version of a node is the one the VERSION commands of its applied prefix define -
